@@ -136,6 +136,24 @@ def decResp : Bytes → Option (List AAddr)
   | n :: rest => decAddrs n.toNat rest
   | [] => none
 
+/-- parse a byte stream frame by frame (`fuel` ≥ the number of frames) -/
+def decFrames : Nat → Bytes → Option (List Msg)
+  | 0, b => if b.isEmpty then some [] else none
+  | fuel + 1, b =>
+    if b.isEmpty then some []
+    else match decFrame b with
+      | some (m, rest) => (decFrames fuel rest).map (m :: ·)
+      | none => none
+
+/-! ### the write path: `agentConnection.Write` splits what a service writes into messages -/
+
+/-- the payloads one `Write(b)` is sent as: at most `m` bytes each, in order; an empty write is one empty message -/
+def chunksAux (m : Nat) : Nat → Bytes → List Bytes
+  | 0, b => [b]
+  | f + 1, b => if b.length ≤ m then [b] else b.take m :: chunksAux m f (b.drop m)
+
+def chunks (m : Nat) (b : Bytes) : List Bytes := chunksAux m b.length b
+
 /-! ## the session: table of virtual connections -/
 
 /-- how the table compares addresses (`Addr.String()`): IP and port -/
@@ -260,6 +278,11 @@ def codecDriver (args : List String) : String :=
       hexd e ++ " => " ++ (match decResp e with
         | some as' => " ".intercalate ("hr" :: as'.map addrStr)
         | none => "fail")
+  | ["write", m, n] =>
+    -- the message payload lengths of a Write of n bytes
+    match m.toNat?, n.toNat? with
+    | some m, some n => " ".intercalate ((chunks m (List.replicate n 0)).map (fun c => toString c.length))
+    | _, _ => "bad-op"
   | _ => "bad-op"
 
 def driver (args : List String) : String :=
